@@ -29,8 +29,8 @@ def evaluate_matched_instance(
             v.name for v in eval_metrics
         ], "decision metric not contained in eval_metrics"
         assert decision_threshold is not None, "decision metric set but no threshold"
-    # Initialize variables for True Positives (tp)
-    tp = len(matched_instance_pair.matched_instances)
+    # Initialize variables for True Positives (tp), only instances passing the decision threshold count
+    tp = 0
     score_dict: dict[Metric, list[float]] = {m: [] for m in eval_metrics}
 
     reference_arr, prediction_arr = (
@@ -58,6 +58,7 @@ def evaluate_matched_instance(
                 metric_dict[decision_metric], decision_threshold
             )
         ):
+            tp += 1
             for k, v in metric_dict.items():
                 score_dict[k].append(v)
 
